@@ -14,7 +14,7 @@ complex64 data and for real inputs (sigpy's fft casts real input to complex64).
 import numpy as np
 
 from vf import lops
-from vf.monitors import STATE
+from vf.monitors import STATE, linop_mon
 from vf.oracles.algebra import Spec
 from vf.common import structured, pick, Plan, crandn, held, violated, inconclusive, rng_for, nrm, inner
 
@@ -171,6 +171,36 @@ def run_case(case):
         obs["HH"] = e
         if np.shape(AHHx) != np.shape(Ax) or not e <= tol * 10:
             return violated(sig, "A.H.H differs from A: rel %.3g" % e, wit, mech="HH", obs=obs)
+        # history: the caller overwrites, in place, the arrays the operator was built from
+        # (new coil maps / filter / multiplier values in the same buffers) after A.H has been
+        # taken: the pair must stay an adjoint pair - neither side may hold a private snapshot
+        if sum(case["rs"]) % 4 == 0:
+            caps = [(n_, v_) for n_, v_ in linop_mon.captured_tree(A).values()
+                    if v_.flags.writeable and v_.dtype.kind in "fc" and v_.size
+                    and not n_.endswith(("coord", ".psf"))]
+            if caps:
+                for n_, v_ in caps:
+                    v_ *= v_.dtype.type(0.8 + 0.6j) if v_.dtype.kind == "c" else v_.dtype.type(-1.5)
+                x = crandn(rng, ish, dt)
+                y = crandn(rng, osh, dt if dt.kind == "c" else np.float64)
+                STATE.peak = 0.0
+                Ax, AHy = A(x), AH(y)
+                gain = max(1.0, STATE.peak / max(min(nrm(x), nrm(y)), 1e-300))
+                lhs, rhs = inner(Ax, y), inner(x, AHy)
+                scale = nrm(Ax) * nrm(y) + nrm(x) * nrm(AHy) + 1e-3 * gain * nrm(x) * nrm(y)
+                if spec is not None:
+                    scale += rnd * nrm(x) * nrm(y) * 2
+                rel = abs(lhs - rhs) / scale if scale > 0 else abs(lhs - rhs)
+                checks += 1
+                obs["adjoint_gap_after_param_update"] = rel
+                sig += "|param-update"
+                if not rel <= tol:
+                    return violated(sig, "after the arrays the operator was built from (%s) were "
+                                    "overwritten in place, A and the A.H taken earlier are no "
+                                    "longer adjoint: relative gap %.3g" % (
+                                        ", ".join(n_ for n_, _ in caps)[:120], rel), wit,
+                                    mech="param-update", obs={"rel": rel})
+                return held(sig, obs, checks, nontrivial)
         # dense form
         ni, no = int(np.prod(ish)), int(np.prod(osh))
         if dt == np.complex128 and ni <= 48 and no <= 48:
